@@ -405,6 +405,12 @@ def remaining_guards(f, target, aliases=None):
             return is_remaining(x) or (isinstance(x, ast.Name) and x.id in aliases)
         if how.startswith('early-exit') and isinstance(op, (ast.LtE, ast.Lt)) and rem(r):
             out.append((unparse(l), how))
+        # the same guard with the position moved to the other side: `len(data) < pos + S` fails, i.e. `pos + S <= len(data)`
+        if how.startswith('early-exit') and isinstance(op, (ast.LtE, ast.Lt)) and re.sub(r'\s', '', unparse(r)) == 'len(data)' \
+                and isinstance(l, ast.BinOp) and isinstance(l.op, ast.Add):
+            for a_, b_ in ((l.left, l.right), (l.right, l.left)):
+                if isinstance(a_, ast.Name) and a_.id == 'pos':
+                    out.append((unparse(b_), how))
     return out
 
 
@@ -425,8 +431,10 @@ def f6_python_guards(ctx, L):
     L.check(('size', 'early-exit:raise:ProphyError') in g, 'F6.remaining-guard', f.fq + '|unpack', f.site(u),
             'struct.unpack is not dominated by `(len(data) - pos) < size -> raise ProphyError` (short input would raise '
             'struct.error)', str(g))
-    rets = [unparse(r.value) for r in ast.walk(f.node) if isinstance(r, ast.Return)]
-    L.check(rets == ['(value, size)'], 'F6.consumed-size', f.fq, f.site(), 'a scalar consumes exactly its size', str(rets))
+    rets = [r.value for r in ast.walk(f.node) if isinstance(r, ast.Return)]
+    # (decoded value, size): the second component is the scalar's size whatever the first is called
+    L.check(len(rets) == 1 and isinstance(rets[0], ast.Tuple) and len(rets[0].elts) == 2 and unparse(rets[0].elts[1]) == 'size',
+            'F6.consumed-size', f.fq, f.site(), 'a scalar consumes exactly its size', str([unparse(r) for r in rets]))
     n += 1
     # _bytes._decode
     comp = ctx.py.mod('prophy.composite')
